@@ -279,6 +279,8 @@ func c03Case(c *Ctx) *Result {
 			fp = newFaultPlan(env.Cfg.Users, env.Cfg.serverAddr().String(), c.Seed*17+int64(c.Idx))
 			env.Net.SetPlan(fp.Decide)
 			env.Net.Latency = time.Duration(pick(r, 100, 250)) * time.Millisecond
+			env.Net.RatePPS = pick(r, 0, 500, 1000, 2000) // a link of limited capacity (queueing, in order, lossless)
+			params["rate_pps"] = env.Net.RatePPS
 			writes = []int{(3 + r.Intn(3)) << 20}
 			total = int64(writes[0])
 			closeDelay = 0
